@@ -359,6 +359,21 @@ neutral("c14-unwind-swap-then-iterate", ["C14", "C06", "C17", "C18"], "contextli
         "        while self._exit_callbacks:\n            callback = self._exit_callbacks.pop()\n            try:\n",
         "        callbacks, self._exit_callbacks = self._exit_callbacks, deque()\n        for callback in reversed(callbacks):\n            try:\n")
 
+mutant("c01-ziplongest-retires-aliased-slots", "C01", "itertools.py",
+       "                    remaining -= 1\n                    if not remaining:\n                        return\n                    async_iters[index] = fill_iter\n",
+       "                    for slot, candidate in enumerate(async_iters):\n                        if candidate is aiterator:\n                            async_iters[slot] = fill_iter\n                            remaining -= 1\n                    if not remaining:\n                        return\n",
+       rule="R01.11")
+mutant("c01-ziplongest-fills-none", "C01", "itertools.py",
+       "                    values.append(fillvalue)\n                else:", "                    values.append(None)\n                else:", rule="R01.11")
+mutant("c01-ziplongest-one-short", "C01", "itertools.py",
+       "        remaining = len(async_iters)\n        while True:", "        remaining = len(async_iters) - 1\n        while True:", rule="R01.11")
+mutant("c01-ziplongest-never-ends", "C01", "itertools.py",
+       "                    if not remaining:\n                        return\n                    async_iters[index] = fill_iter\n",
+       "                    async_iters[index] = fill_iter\n                    if not remaining:\n                        break\n", rule="R01.11")
+neutral("c01-ziplongest-counts-active-up", ["C01", "C05", "C20"], "itertools.py",
+        "        remaining = len(async_iters)\n        while True:\n            values: list[Any] = []\n            for index, aiterator in enumerate(async_iters):\n                try:\n                    value = await anext(aiterator)\n                except StopAsyncIteration:\n                    remaining -= 1\n                    if not remaining:\n                        return\n",
+        "        exhausted = 0\n        while True:\n            values: list[Any] = []\n            for index, aiterator in enumerate(async_iters):\n                try:\n                    value = await anext(aiterator)\n                except StopAsyncIteration:\n                    exhausted += 1\n                    if exhausted == len(async_iters):\n                        return\n")
+
 # --------------------------------------------------------------------------- C13
 mutant("c13-handlers-reordered", "C13", "contextlib.py",
        "            except StopAsyncIteration as exc:\n                return exc is not exc_tb\n            except RuntimeError as exc:\n                if exc is exc_val:\n                    return False\n                # Handle promotion of unhandled Stop[Async]Iteration to RuntimeError\n                if isinstance(exc_val, (StopIteration, StopAsyncIteration)):\n                    if exc.__cause__ is exc_val:\n                        return False\n                raise\n            except exc_type as exc:\n                if exc is not exc_val:\n                    raise\n                return False\n",
@@ -549,6 +564,16 @@ mutant("c08-unwrap-nested", "C08", "asynctools.py",
 mutant("c08-neutral-for-closeable", "C08", "asynctools.py",
        "    if not hasattr(iterator := aiter(iterable), \"aclose\"):\n",
        "    if hasattr(iterator := aiter(iterable), \"aclose\"):\n", rule="R08.4")
+mutant("c08-exit-resets-guard", "C08", "asynctools.py",
+       "        await self._borrowed_iter._aclose_wrapper()  # type: ignore\n        await self._iterator.aclose()  # type: ignore\n",
+       "        wrapper, self._borrowed_iter = self._borrowed_iter, None\n        await wrapper._aclose_wrapper()  # type: ignore\n        await self._iterator.aclose()  # type: ignore\n",
+       rule="R08.6")
+mutant("c08-enter-unguarded", "C08", "asynctools.py",
+       "        if self._borrowed_iter is not None:\n            raise RuntimeError(\"scoped_iter is not re-entrant\")\n",
+       "", rule="R08.6")
+neutral("c08-guard-early-return-form", ["C08", "C07", "C06"], "asynctools.py",
+        "        if self._borrowed_iter is not None:\n            raise RuntimeError(\"scoped_iter is not re-entrant\")\n        self._borrowed_iter = _ScopedAsyncIterator(self._iterator)\n        return self._borrowed_iter\n",
+        "        if self._borrowed_iter is None:\n            self._borrowed_iter = handle = _ScopedAsyncIterator(self._iterator)\n            return handle\n        raise RuntimeError(\"scoped_iter is not re-entrant\")\n")
 neutral("c08-exit-signature", ["C08", "C07", "C06"], "asynctools.py",
         "    async def __aexit__(self, *args: Any) -> None:\n        await self._borrowed_iter._aclose_wrapper()",
         "    async def __aexit__(self, exc_type: Any, exc_val: Any, exc_tb: Any) -> None:\n        await self._borrowed_iter._aclose_wrapper()")
